@@ -130,6 +130,11 @@ def _import ():
   class S_shy (SinkBase):
     def _handle_baz_Ev (self, e): self.w.sink_hit(self, "baz")
     def _all_dependencies_met (self): self.w.sink_ready(self)
+  class S_la (SinkBase):                       # three event-raising dependencies; used with listen_args variants
+    def _handle_foo_Ev (self, e): self.w.sink_hit(self, "foo")
+    def _handle_foo_bar_Ev (self, e): self.w.sink_hit(self, "foo_bar")
+    def _handle_baz_Ev (self, e): self.w.sink_hit(self, "baz")
+    def _all_dependencies_met (self): self.w.sink_ready(self)
   P.SinkBase = SinkBase
   # kind -> (name, class, deps (None: computed per call), components that have an Ev handler, has completion
   #          callback, ltd kwargs; ("shared", form) stands for the execution's one shared set / list object)
@@ -145,6 +150,15 @@ def _import ():
     ("S_shy_set",  S_shy,    None,                ("baz",),           True,  {"components": ("shared", "set")}),
     ("S_shx_list", S_shx,    None,                ("foo_bar",),       True,  {"components": ("shared", "list")}),
     ("S_shy_list", S_shy,    None,                ("baz",),           True,  {"components": ("shared", "list")}),
+    # listen_args dimension: wildcard entry {None: ...} ("add it to all"), wildcard + own entry, own entries only
+    ("S_la_wild", S_la, ("baz", "foo", "foo_bar"), ("foo", "foo_bar", "baz"), True,
+     {"listen_args": {None: {"priority": 10}}}),
+    ("S_la_mix",  S_la, ("baz", "foo", "foo_bar"), ("foo", "foo_bar", "baz"), True,
+     {"listen_args": {None: {"priority": 10}, "baz": {"priority": -10}}}),
+    ("S_la_own",  S_la, ("baz", "foo", "foo_bar"), ("foo", "foo_bar", "baz"), True,
+     {"listen_args": {"foo": {"priority": 10}, "foo_bar": {"priority": -10}}}),
+    ("S_both_wild", S_both, ("foo", "foo_bar"),   ("foo", "foo_bar"), True,
+     {"listen_args": {None: {"priority": -10}}}),
   ]
   P.SHARED_INIT = ("foo",)                     # what the caller wrote into the shared collection
   _P = P
@@ -223,6 +237,8 @@ class World (object):
     self.objects = {}             # (name, gen) -> object
     self.sinks = {}               # kind -> sink object
     self.sink_deps = {}           # kind -> components the sink named in its listen_to_dependencies call
+    self.sink_opts = {}           # kind -> {component: addListeners options requested (model)}
+    self.probe_order = []         # call order within one probe raise: "ref" (harness listener) / (kind, comp)
     self.shared = {"set": set(P.SHARED_INIT), "list": list(P.SHARED_INIT)}   # one object each per execution
     self.sink_base = {}           # kind -> number of register calls before core wiring
     self.sink_crs = {}            # kind -> ComponentRegistered deliveries
@@ -369,6 +385,7 @@ class World (object):
   def sink_hit (self, sink, comp):
     if self.probing:
       self.probe_hits.append((self.probe_target, sink.kind, comp))
+      self.probe_order.append((sink.kind, comp))
     else:
       self.fail("sink-spurious-event", "sink %s got an event of %s outside a probe" % (sink.kind, comp), self.sink_name(sink.kind))
 
@@ -407,15 +424,18 @@ class World (object):
     considers wired to that object must be called, once each."""
     P = self.P
     self.probing = True; self.probe_hits = []
+    orders = {}
     try:
       for key in sorted(self.objects):
         obj = self.objects[key]
         if not isinstance(obj, P.Comp): continue
         self.probe_target = key
+        self.probe_order = []
         try:
           obj.raiseEvent(P.Ev())
         except Exception as e:
           self.fail("raises", "probe raise on %s failed: %r" % (key, e), "probe:" + site_of(P, e))
+        orders[key] = self.probe_order
     finally:
       self.probing = False
     expected = []
@@ -437,6 +457,21 @@ class World (object):
       self.fail("sink-wiring-" + what,
                 "probing component objects: handlers called %s, expected %s" % (got, expected),
                 P.SINKS[x[1]][0])
+    if self.violated is None:
+      # requested priority, relative to the harness' own listener (priority 0, subscribed when the object was made):
+      # a handler asked for with a higher priority runs before it, any other one after it
+      for key, order in sorted(orders.items()):
+        if order.count("ref") != 1:
+          self.fail("harness-ref-listener", "reference listener ran %d times" % order.count("ref"), "probe"); break
+        r = order.index("ref")
+        for i, item in enumerate(order):
+          if item == "ref": continue
+          kind, comp = item
+          prio = self.sink_opts[kind][comp]["priority"]
+          if (i < r) != (prio > 0):
+            self.fail("sink-wiring-priority",
+                      "event of %s: call order %s; sink %s asked for priority %d on %s (reference listener has 0)"
+                      % (key, order, P.SINKS[kind][0], prio, comp), P.SINKS[kind][0])
     for kind, base in self.sink_base.items():
       if "core" in self.sink_deps[kind]:
         exp = len(self.model.reg_calls) - base
@@ -449,8 +484,13 @@ class World (object):
     g = self.model.register(name)
     obj = (self.P.Plain if name == "qux" else self.P.Comp)(name, g)
     self.objects[(name, g)] = obj
+    if isinstance(obj, self.P.Comp):
+      obj.addListener(self.P.Ev, self._ref_listener)       # priority 0, first subscriber
     self.calls += 1
     self.core.register(name, obj)
+
+  def _ref_listener (self, event):
+    if self.probing: self.probe_order.append("ref")
 
   def do_cwr (self, deps, form):
     wid = ("w", self.next_wid); self.next_wid += 1
@@ -472,6 +512,10 @@ class World (object):
     sink = cls(self, kind)
     self.sinks[kind] = sink
     kw = dict(kw)
+    la = kw.get("listen_args")
+    if la is not None:                           # a fresh dict per call (the call consumes the wildcard entry)
+      kw["listen_args"] = dict((k, dict(v)) for k, v in la.items())
+    self.sink_opts[kind] = dict((c, Model.listen_options(la, c)) for c in handled)
     arg = kw.get("components")
     form = None
     if isinstance(arg, tuple) and arg[0] == "shared":
@@ -693,11 +737,15 @@ def params (cfg):
   # handlers and as later stages after goUp returned (non-monotone: new ones while others are outstanding)
   defer = dict(nc=0, maxp=0, depth=cfg.pick(7, 8), dev=0, sinks=[], goup=GOUP_VARIANTS, noquit=True, cwr_masks=[],
                takers=2, hold_max=3, forms=(("str",), ("list",)))
-  if cfg.quick: return [q, shared, defer]
+  # listen_args dimension of the dependency wiring: wildcard / wildcard + own entry / own entries / none, on sinks
+  # with two and three event-raising dependencies; every order of declaration and (re-)registration
+  wiring = dict(nc=3, maxp=3, depth=cfg.pick(6, 7), dev=1, sinks=[10, 11, 12, 13, 2], goup=[""], noquit=True,
+                cwr_masks=[4], forms=(("str",), ("list",)))
+  if cfg.quick: return [q, shared, defer, wiring]
   deep = dict(q, maxp=4, depth=6)
   wide = dict(nc=4, maxp=5, depth=4, dev=3, sinks=[0, 1, 2, 3, 4, 5], goup=GOUP_VARIANTS,
               forms=(("str", "list"), ("list", "tuple", "set")))
-  return [deep, wide, shared, defer]
+  return [deep, wide, shared, defer, wiring]
 
 
 def public (prm):
@@ -739,7 +787,9 @@ RULE = ("breadth-first over canonical states of a real POXCore: every history of
         "component names, explicit components, short attrs, dependency on core, with/without completion callback, "
         "`components=` being ONE set / list object per execution shared by two sink kinds - the caller's object must "
         "be left as it was and each sink's dependency set is the argument's value at its own call plus its own "
-        "handler names); "
+        "handler names; listen_args with a wildcard entry {None: ...}, wildcard + own entry, own entries only, none - "
+        "every _handle_<component>_<Event> method must be wired to exactly that component's object, with the "
+        "requested priority relative to a reference listener); "
         "goUp with GoingUp handlers %s (I: deferral released inside the handler, L: released by a later operation, "
         "every order); a component taking a deferral outside a handler (while launching, or as a later start-up "
         "stage after goUp returned while others may be outstanding; only while the system is not up); release of any "
